@@ -62,7 +62,8 @@ ASSUMPTIONS = [
     "images whose live pixels are positive; dead pixels are 'isolated' when "
     "none of their 4-neighbours is dead",
     "centre finder: only the enumerated lattice (5x5 over the central 60 %, "
-    "sub-pixel offsets, 4 (r,n,z) triples, 3 detector sizes, spacing 0.1, "
+    "sub-pixel offsets, 4 (r,n,z) triples, 3 square + 3 non-square "
+    "detectors (the latter on a 3x3 sub-lattice), spacing 0.1, "
     "lambda 0.66, n_medium 1.33, x-polarised) is explored",
 ]
 # tolerances: >= 30x the largest discrepancy observed on the unchanged tree
@@ -170,6 +171,19 @@ def _attrs_diff(got, ref, allow=None):
                 continue
             bad.append(k)
     return bad
+
+
+class _ToolRaised(Exception):
+    """the tool under test raised on an input the property covers."""
+
+
+def _t(what, fn, *args, passthrough=(), **kw):
+    try:
+        return fn(*args, **kw)
+    except passthrough:
+        raise
+    except Exception as e:
+        raise _ToolRaised("%s raised %s: %s" % (what, type(e).__name__, e))
 
 
 class _Snap:
@@ -332,7 +346,7 @@ def _run_normalize(case, ck):
                 what = "normalize(%s %dx%d x%g, %s)" % (kind, nx, ny, s, meta)
                 im = _mk(v, meta)
                 snap = _Snap(im)
-                n1 = normalize(im)
+                n1 = _t(what, normalize, im)
                 ck.trans += 1
                 _meta(ck, "normalize", n1, snap, what)
                 _input_meta(ck, "normalize", im, snap, what)
@@ -355,7 +369,7 @@ def _run_normalize(case, ck):
                         e <= TOLERANCES["normalize-proportional"],
                         "%s: differs from v/mean(v) by %.3g" % (what, e))
                 # idempotent
-                n2 = normalize(n1)
+                n2 = _t(what + ' twice', normalize, n1)
                 ck.trans += 1
                 a2 = np.asarray(n2.values, dtype=float)
                 e = float(np.abs(a2 - a1).max() / np.abs(a1).max()
@@ -417,9 +431,9 @@ def _run_bg(case, ck):
                 df = None if dv is None else _mk(dv, meta, name="dark")
                 snap = _Snap(raw)
                 if df is None:
-                    out = bg_correct(raw, bg)
+                    out = _t(what, bg_correct, raw, bg)
                 else:
-                    out = bg_correct(raw, bg, df)
+                    out = _t(what, bg_correct, raw, bg, df)
                 ck.trans += 1
                 allow = None
                 if snap.attrs.get("noise_sd") is None:
@@ -585,7 +599,7 @@ def _run_subimage(case, ck):
                             cen = (cx + dx, cy + dy)
                             what = "subimage(%s %dx%d %s, %r, %d)" % (
                                 kind, nx, ny, meta, cen, s)
-                            sub = subimage(im3, cen, s)
+                            sub = _t(what, subimage, im3, cen, s)
                             ck.trans += 1
                             n_acc += 1
                             r = _check_crop(ck, sub, im3, s3,
@@ -600,7 +614,7 @@ def _run_subimage(case, ck):
                 for cy, sy in _windows(ny):
                     what = "subimage(2-D %s %dx%d %s, (%d, %d), (%d, %d))" % (
                         kind, nx, ny, meta, cx, cy, sx, sy)
-                    sub = subimage(im2, (cx, cy), (sx, sy))
+                    sub = _t(what, subimage, im2, (cx, cy), (sx, sy))
                     ck.trans += 1
                     n_acc += 1
                     r = _check_crop(ck, sub, im2, s2,
@@ -667,7 +681,7 @@ def _zero_once(ck, v, dead, meta, what):
     snap = _Snap(im)
     exp = _expected_zero(v, dead, nx, ny)
     try:
-        out = zero_filter(im)
+        out = _t(what, zero_filter, im, passthrough=(BadImage,))
         ck.trans += 1
     except BadImage:
         ck.trans += 1
@@ -771,9 +785,9 @@ def _run_detrend(case, ck):
                 continue
             im0 = _mk(v, meta)
             snap0 = _Snap(im0)
-            d0 = detrend(im0)
-            ck.trans += 1
             what0 = "detrend(%s %dx%d %s)" % (kind, nx, ny, meta)
+            d0 = _t(what0, detrend, im0)
+            ck.trans += 1
             _meta(ck, "detrend", d0, snap0, what0)
             _input_meta(ck, "detrend", im0, snap0, what0)
             a0 = np.asarray(d0.values, dtype=float)
@@ -797,7 +811,7 @@ def _run_detrend(case, ck):
                     kind, nx, ny, meta, a, b, c)
                 im = _mk(v + plane, meta)
                 snap = _Snap(im)
-                d = detrend(im)
+                d = _t(what, detrend, im)
                 ck.trans += 1
                 _meta(ck, "detrend", d, snap, what)
                 arr = np.asarray(d.values, dtype=float)
@@ -836,7 +850,7 @@ def _acc_sequence(ck, arrs, order, what, as_image=True, running=False):
         ims.append(x)
         if as_image:
             snaps.append(_Snap(x))
-        acc.push(x)
+        _t(what, acc.push, x)
         ck.trans += 1
         if running and npush < len(order):
             # the running values after every push are the batch values of
@@ -863,9 +877,9 @@ def _acc_sequence(ck, arrs, order, what, as_image=True, running=False):
                         e <= TOLERANCES["accumulator-std"],
                         "%s: after %d pushes the std differs from the "
                         "batch std of the prefix by %.3g" % (what, npush, e))
-    acc.std()
-    acc.mean()                        # a repeated query changes nothing
-    m, s = acc.mean(), acc.std()
+    _t(what, acc.std)
+    _t(what, acc.mean)                # a repeated query changes nothing
+    m, s = _t(what, acc.mean), _t(what, acc.std)
     ck.trans += 4
     stack = np.array([arrs[k] for k in order], dtype=float)
     rm = stack.mean(axis=0)
@@ -973,7 +987,7 @@ def _run_centre(case, ck):
     holo = _holo(N, rnz, (px * SPACING, py * SPACING))
     ck.trans += 1
     snap = _Snap(holo)
-    c = np.asarray(center_find(holo), dtype=float)
+    c = np.asarray(_t(what, center_find, holo), dtype=float)
     ck.trans += 1
     _input_meta(ck, "centre", holo, snap, what)
     if not ck.true("centre-shape", c.shape == (2,) and
@@ -1004,11 +1018,12 @@ def _run_priors(case, ck):
     holo = _holo(N, rnz, truth, spacing=sp, origin=origin)
     ck.trans += 1
     snap = _Snap(holo)
-    c = np.asarray(center_find(holo), dtype=float)
+    c = np.asarray(_t(what, center_find, holo), dtype=float)
     acc = [np.round(c, 6)]
     for unc in (None, 2.5):
-        pri = (make_center_priors(holo) if unc is None else
-               make_center_priors(holo, xy_uncertainty_pixels=unc))
+        pri = (_t(what, make_center_priors, holo) if unc is None else
+               _t(what, make_center_priors, holo,
+                  xy_uncertainty_pixels=unc))
         ck.trans += 1
         _input_meta(ck, "center-priors", holo, snap, what)
         if not ck.true("center-priors-shape", len(pri) == 3 and
@@ -1054,12 +1069,23 @@ def run_case(case):
     outcome = "ok"
     if kind == "bgrefuse":
         fp, outcome = _run_bgrefuse(case, ck)
-    else:
+        return ck.result(fp=fp, outcome=outcome)
+    try:
         fp = {"normalize": _run_normalize, "bg": _run_bg,
               "subimage": _run_subimage, "zero1": _run_zero1,
               "zero2": _run_zero2, "detrend": _run_detrend,
               "acc": _run_acc, "accrep": _run_accrep,
               "centre": _run_centre, "priors": _run_priors}[kind](case, ck)
+    except _ToolRaised as e:
+        # an error on an input the property covers (refusals the property
+        # allows -- BadImage for a dead corner, subimage's own assertion --
+        # are handled where they are expected)
+        tool = {"zero1": "zero-filter", "zero2": "zero-filter",
+                "acc": "accumulator", "accrep": "accumulator",
+                "priors": "center-priors"}.get(kind, kind)
+        ck.true("%s-raised" % tool, False, str(e)[:600])
+        fp = digest("raised", str(e)[:200])
+        outcome = "raised"
     return ck.result(fp=fp, outcome=outcome)
 
 
@@ -1082,7 +1108,9 @@ def coverage_extra(cases, results):
         "subimage_crops_accepted": crops,
         "subimage_crops_refused_by_assertion": refused,
         "zero_filter_pair_executions": pairs,
-        "centre_finder": {"detectors": DETECTORS, "nonsquare": NONSQUARE, "rnz": RNZ,
+        "centre_finder": {"detectors": DETECTORS,
+                          "nonsquare": NONSQUARE[:1] if tier == "quick"
+                          else NONSQUARE, "rnz": RNZ,
                           "offsets_px": OFFSETS[:1] if tier == "quick"
                           else OFFSETS,
                           "lattice": "%dx%d over central 60%%" %
